@@ -28,15 +28,23 @@ const c18Server = "(*Authenticator).performFSAuthenticationServer"
 
 // c18ClientFacts are the anchors of the client exchange shared by R1, R2, R4 and R5.
 type c18ClientFacts struct {
-	fn       *ssa.Function
-	validate *ssa.Function
-	vcall    ssa.CallInstruction // the validateFSAuthPath call
-	vsucc    []Edge              // its nil-error edges
-	leaf     ssa.Value           // result #0 of that call
-	openRoot *types.Func
-	mkdir    *types.Func
-	remove   *types.Func
-	closeFn  *types.Func
+	fn        *ssa.Function
+	root      *c11Env
+	validate  *ssa.Function
+	vsite     c11CallSite // the validateFSAuthPath call (in the exchange or a helper of it)
+	validated c11Fact     // that call returned a nil error
+	leaf      ssa.Value   // result #0 of that call
+	openRoot  *types.Func
+	mkdir     *types.Func
+	remove    *types.Func
+	closeFn   *types.Func
+}
+
+func c18IsCallTo(f types.Object) func(ssa.CallInstruction) bool {
+	return func(call ssa.CallInstruction) bool {
+		co := calleeObj(call)
+		return co != nil && f != nil && types.Object(co) == f
+	}
 }
 
 func (c *Ctx) c18ClientAnchors(rule string) *c18ClientFacts {
@@ -50,20 +58,30 @@ func (c *Ctx) c18ClientAnchors(rule string) *c18ClientFacts {
 	if f.fn == nil || f.validate == nil || f.openRoot == nil || f.mkdir == nil || f.remove == nil || f.closeFn == nil {
 		return nil
 	}
-	calls := callsIn(f.fn, f.validate.Object())
+	f.root = c11Root(f.fn)
+	calls := c11CallsTo(f.root, c18IsCallTo(f.validate.Object()))
 	if len(calls) != 1 {
 		c.Undecided(rule, fnName(f.fn)+"#validate-call", fmt.Sprintf("expected exactly one validateFSAuthPath call in the client exchange, found %d", len(calls)), f.fn.Pos())
 		return nil
 	}
-	f.vcall = calls[0]
-	succ, _, checked := callErrEdges(f.fn, f.vcall.Value())
-	if !checked {
-		c.Violate(rule, fnName(f.fn)+"#validate-call", "the error result of validateFSAuthPath is never tested", f.vcall.Pos())
+	f.vsite = calls[0]
+	if c11NilErrCuts(f.vsite.env.fn, f.vsite.call, newCuts(), false) == 0 {
+		c.Violate(rule, fnName(f.fn)+"#validate-call", "the error result of validateFSAuthPath is never tested", f.vsite.call.Pos())
 		return nil
 	}
-	f.vsucc = succ
-	f.leaf = extractN(f.vcall.Value(), 0)
+	vcall := f.vsite.call
+	f.validated = c11Fact{errOK: func(call ssa.CallInstruction, _ *c11Env) bool { return call == vcall }}
+	f.leaf = extractN(vcall.Value(), 0)
 	return f
+}
+
+// c18FSSite is a filesystem-touching call of the client exchange: in the exchange itself, in a
+// followed helper (env set) or in a closure of the exchange (env nil).
+type c18FSSite struct {
+	fn      *ssa.Function
+	call    ssa.CallInstruction
+	env     *c11Env
+	closure bool // reached through a closure: no place relative to the validation
 }
 
 // c18FSCalls lists the filesystem-touching calls of fn and its closures.
@@ -79,114 +97,161 @@ func c18FSCalls(fn *ssa.Function) []CallSite {
 	return out
 }
 
+// c18OnCycle: the instruction of body e can execute twice in one run of the root body: it is on a
+// cycle of its own body or the call leading to its body is, at some level.
+func c18OnCycle(e *c11Env, in ssa.Instruction) []*ssa.BasicBlock {
+	for ; e != nil; in, e = e.call, e.parent {
+		if _, isDefer := in.(*ssa.Defer); isDefer {
+			continue
+		}
+		if p := findPath(after(in), Target{Instr: in}, nil); p != nil {
+			return p
+		}
+	}
+	return nil
+}
+
 // C18-R1: validate before any filesystem effect, on the right inputs, through the rooted handle.
 func c18r1(c *Ctx) {
 	const rule = "C18-R1"
-	c.Doc(rule, "performFSAuthenticationClient: every call into os/syscall is dominated by the nil-error edge of validateFSAuthPath(path received from the peer, remote, RemoteAddr() of the live connection); the only such calls are os.OpenRoot on the constant base directory the validator compares against and methods of the *os.Root it returned, whose name arguments are result #0 of the validator; the validator and its helpers touch no filesystem")
+	c.Doc(rule, "performFSAuthenticationClient (with the same-package helpers it calls): every call into os/syscall is dominated by the nil-error edge of validateFSAuthPath(path received from the peer, remote, RemoteAddr() of the live connection); the only such calls are os.OpenRoot on the constant base directory the validator compares against and methods of the *os.Root it returned, whose name arguments are result #0 of the validator; the validator and its helpers touch no filesystem")
 	f := c.c18ClientAnchors(rule)
 	if f == nil {
 		return
 	}
 	fn := f.fn
 	base, okBase := c.c18ConstString(rule, "security", "fsAuthBaseDir")
-	args := f.vcall.Common().Args
+	args := f.vsite.call.Common().Args
+	venv := f.vsite.env
 	// provenance of the validator's arguments
 	getStr := c.needFn(rule, "message", "(*Message).GetStringWithMaxSize")
 	getConn := c.needFn(rule, "stream", "(*Stream).GetConnection")
 	if len(args) != 3 || getStr == nil || getConn == nil {
-		c.Undecided(rule, fnName(fn)+"#validate-args", "unexpected validateFSAuthPath signature", f.vcall.Pos())
+		c.Undecided(rule, fnName(fn)+"#validate-args", "unexpected validateFSAuthPath signature", f.vsite.call.Pos())
 		return
 	}
-	okPath := false
-	for _, o := range c18Origins(args[0]) {
-		okPath = c18CallOf(o, getStr.Object(), 0) != nil
-		if !okPath {
-			break
+	okPath := c.c11All(c11LV{args[0], venv}, func(l c11LV) bool { return c18CallOf(l.V, getStr.Object(), 0) != nil })
+	c.Check(okPath, rule, fnName(fn)+"#validate-arg:path", "the validated string is the one received from the peer", "the string handed to validateFSAuthPath is not (only) the path received from the peer", f.vsite.call.Pos())
+	okRemote := len(fn.Params) == 4 && c.c11All(c11LV{args[1], venv}, func(l c11LV) bool { return l.V == ssa.Value(fn.Params[3]) && l.E == f.root })
+	c.Check(okRemote, rule, fnName(fn)+"#validate-arg:remote", "the mode flag is the function's own", "the remote flag handed to validateFSAuthPath is not the exchange's own mode", f.vsite.call.Pos())
+	nAddr := 0
+	okAddr := c.c11All(c11LV{args[2], venv}, func(l c11LV) bool {
+		if isNilConst(l.V) {
+			return true // no connection: verifyFSPathEndpoint refuses a nil address (R3)
 		}
-	}
-	c.Check(okPath, rule, fnName(fn)+"#validate-arg:path", "the validated string is the one received from the peer", "the string handed to validateFSAuthPath is not (only) the path received from the peer", f.vcall.Pos())
-	okRemote := len(fn.Params) == 4 && args[1] == ssa.Value(fn.Params[3])
-	c.Check(okRemote, rule, fnName(fn)+"#validate-arg:remote", "the mode flag is the function's own", "the remote flag handed to validateFSAuthPath is not the exchange's own mode", f.vcall.Pos())
-	okAddr, nAddr := true, 0
-	for _, o := range c18Origins(args[2]) {
-		if isNilConst(o) {
-			continue // no connection: verifyFSPathEndpoint refuses a nil address (R3)
+		call, isCall := l.V.(*ssa.Call)
+		if !isCall || !call.Call.IsInvoke() || call.Call.Method.Name() != "RemoteAddr" {
+			return false
 		}
-		call, isCall := o.(*ssa.Call)
-		good := false
-		if isCall && call.Call.IsInvoke() && call.Call.Method.Name() == "RemoteAddr" {
-			for _, r := range c18Origins(call.Call.Value) {
-				if c18CallOf(r, getConn.Object(), 0) != nil {
-					good = true
-				} else {
-					good = false
-					break
+		if !c.c11All(c11LV{call.Call.Value, l.E}, func(m c11LV) bool { return c18CallOf(m.V, getConn.Object(), 0) != nil }) {
+			return false
+		}
+		nAddr++
+		return true
+	})
+	c.Check(okAddr && nAddr > 0, rule, fnName(fn)+"#validate-arg:peerAddr", "the endpoint is RemoteAddr() of the stream's connection", "the address handed to validateFSAuthPath is not RemoteAddr() of the live connection", f.vsite.call.Pos())
+
+	// every filesystem call: of the exchange, of the helpers followed from it, of its closures
+	var sites []c18FSSite
+	covered := map[*ssa.Function]bool{}
+	var collect func(e *c11Env, placed bool)
+	collect = func(e *c11Env, placed bool) {
+		for _, b := range c11Bodies(e) {
+			covered[b.fn] = true
+			b := b
+			allInstrs(b.fn, func(_ *ssa.BasicBlock, _ int, in ssa.Instruction) {
+				if call, ok := in.(ssa.CallInstruction); ok && c18IsFSCall(call) {
+					sites = append(sites, c18FSSite{fn: b.fn, call: call, env: b, closure: !placed})
 				}
+			})
+			// closures created in the body (deferred clean-up): their place on the paths of the
+			// exchange is not known, their values are
+			for _, g := range b.fn.AnonFuncs {
+				collect(&c11Env{fn: g, parent: b, depth: b.depth}, false)
 			}
 		}
-		if good {
-			nAddr++
-		} else {
-			okAddr = false
-		}
 	}
-	c.Check(okAddr && nAddr > 0, rule, fnName(fn)+"#validate-arg:peerAddr", "the endpoint is RemoteAddr() of the stream's connection", "the address handed to validateFSAuthPath is not RemoteAddr() of the live connection", f.vcall.Pos())
-
-	// every filesystem call
-	var roots []ssa.Value
-	for _, cs := range callsIn(fn, f.openRoot) {
-		roots = append(roots, extractN(cs.Value(), 0))
+	collect(f.root, true)
+	vq := c.c11NewQuery(f.validated)
+	isRoot := func(x c11LV) bool { // a root opened by os.OpenRoot (or nil: no effect)
+		n := 0
+		ok := c.c11All(x, func(l c11LV) bool {
+			if isNilConst(l.V) {
+				return true
+			}
+			if c18CallOf(l.V, f.openRoot, 0) != nil {
+				n++
+				return true
+			}
+			return false
+		})
+		return ok && n > 0
 	}
-	rootSet := c18Set(roots...)
-	leafSet := c18Set(f.leaf)
-	cuts := newCuts().AddEdges(f.vsucc...)
+	isName := func(x c11LV) bool { // result #0 of the validator (or "": refused by os.Root)
+		n := 0
+		ok := c.c11All(x, func(l c11LV) bool {
+			if s, isC := constString(l.V); isC && s == "" {
+				return true
+			}
+			if l.V == f.leaf && f.leaf != nil {
+				n++
+				return true
+			}
+			return false
+		})
+		return ok && n > 0
+	}
 	n := 0
 	ord := map[string]int{}
-	for _, cs := range c18FSCalls(fn) {
-		n++
-		_, name := c18CalleePkg(cs.Call)
-		o := calleeObj(cs.Call)
-		construct := fmt.Sprintf("%s#fs-call:%s", fnName(cs.Fn), o.FullName())
-		ord[construct]++
+	seenSite := map[ssa.CallInstruction]bool{}
+	for _, cs := range sites {
+		o := calleeObj(cs.call)
+		_, name := c18CalleePkg(cs.call)
+		construct := fmt.Sprintf("%s#fs-call:%s", fnName(cs.fn), o.FullName())
+		if !seenSite[cs.call] {
+			n++
+			ord[construct]++
+		}
+		seenSite[cs.call] = true
 		if k := ord[construct]; k > 1 {
 			construct += fmt.Sprintf("#%d", k)
 		}
-		cargs := cs.Call.Common().Args
+		cargs := cs.call.Common().Args
 		recv := o.Type().(*types.Signature).Recv()
 		isRootMethod := recv != nil && c18IsRootPtr(recv.Type())
+		env := cs.env
 		// Methods of *os.Root are tied to the validated region through their receiver (a root that
 		// was opened there, or nil = no effect); everything else must itself be dominated.
 		if !isRootMethod {
-			if cs.Fn != fn {
-				c.Undecided(rule, construct, "filesystem call inside a closure: cannot place it relative to the validation", cs.Call.Pos())
+			if cs.closure {
+				c.Undecided(rule, construct, "filesystem call inside a closure: cannot place it relative to the validation", cs.call.Pos())
 				continue
 			}
-			if p := findPath(entryPoint(fn), Target{Instr: cs.Call}, cuts); p != nil {
-				c.Violate(rule, construct, "filesystem call reachable without a successful validateFSAuthPath", cs.Call.Pos(), c.describePath(p)...)
+			if ok, p := vq.guards(nil, cs.env, cs.call); !ok {
+				c.Violate(rule, construct, "filesystem call reachable without a successful validateFSAuthPath", cs.call.Pos(), c.describePath(p)...)
 				continue
 			}
 		}
 		switch {
 		case types.Object(o) == types.Object(f.openRoot):
-			s, isC := constString(cargs[0])
-			c.Check(isC && okBase && s == base, rule, construct, "the root is opened on the constant base directory", "os.OpenRoot is not called on the fsAuthBaseDir constant the validator compares against", cs.Call.Pos())
+			c.Check(okBase && c.c11LVConstString(c11LV{cargs[0], env}, base), rule, construct, "the root is opened on the constant base directory", "os.OpenRoot is not called on the fsAuthBaseDir constant the validator compares against", cs.call.Pos())
 		case isRootMethod:
-			good := c18AllIn(cargs[0], rootSet)
+			good := isRoot(c11LV{cargs[0], env})
 			why := "receiver is not the root opened on the base directory"
 			for i, a := range cargs[1:] {
 				if bt, ok := a.Type().Underlying().(*types.Basic); ok && bt.Kind() == types.String {
-					if !c18AllIn(a, leafSet) {
+					if !isName(c11LV{a, env}) {
 						good = false
 						why = fmt.Sprintf("argument %d of %s is not the name returned by validateFSAuthPath", i+1, name)
 					}
 				}
 			}
-			c.Check(good, rule, construct, "operates on the validated name inside the root opened on the base directory", why, cs.Call.Pos())
+			c.Check(good, rule, construct, "operates on the validated name inside the root opened on the base directory", why, cs.call.Pos())
 		default:
-			c.Undecided(rule, construct, "filesystem call outside the rooted handle: cannot relate its path to the validated name", cs.Call.Pos())
+			c.Undecided(rule, construct, "filesystem call outside the rooted handle: cannot relate its path to the validated name", cs.call.Pos())
 		}
 	}
-	c.MinCount(rule, "filesystem calls in the client exchange", n, 4)
+	c.MinCount(rule, "filesystem calls in the client exchange", n, 1)
 	// the validator and the same-package helpers it reaches have no filesystem calls
 	clean, helpers := true, 0
 	for g := range c.reachableFns([]*ssa.Function{f.validate}, false) {
@@ -202,16 +267,16 @@ func c18r1(c *Ctx) {
 	if clean {
 		c.Ok(rule, "validator#no-fs-call", fmt.Sprintf("validateFSAuthPath and its %d helper(s) make no os/syscall call", helpers-1), f.validate.Pos())
 	}
-	// other same-package functions the exchange calls must not touch the filesystem either
+	// other same-package functions the exchange reaches (not followed above) must not touch the filesystem
 	for g := range c.reachableFns([]*ssa.Function{fn}, false) {
-		if fnPkg(g) != fnPkg(fn) || topFn(g) == fn {
+		if fnPkg(g) != fnPkg(fn) || topFn(g) == fn || covered[g] {
 			continue
 		}
 		for _, cs := range c18FSCalls(g) {
 			c.Violate(rule, fnName(g)+"#fs-call:"+calleeObj(cs.Call).FullName(), "a helper of the client exchange touches the filesystem outside the validated region", cs.Call.Pos())
 		}
 	}
-	c.MinCount(rule, "validator functions inspected", helpers, 3)
+	c.MinCount(rule, "validator functions inspected", helpers, 1)
 }
 
 func c18IsRootPtr(t types.Type) bool {
@@ -226,14 +291,14 @@ func c18IsRootPtr(t types.Type) bool {
 // C18-R2: at most one directory.
 func c18r2(c *Ctx) {
 	const rule = "C18-R2"
-	c.Doc(rule, "performFSAuthenticationClient (with closures and same-package callees) contains exactly one call that can create a filesystem object, (*os.Root).Mkdir, and it is not on a cycle of the control-flow graph")
+	c.Doc(rule, "performFSAuthenticationClient (with closures and same-package callees) contains exactly one call that can create a filesystem object, (*os.Root).Mkdir, and it is not on a cycle of the control-flow graph (nor is a call leading to it)")
 	f := c.c18ClientAnchors(rule)
 	if f == nil {
 		return
 	}
 	fn := f.fn
+	mks := c11CallsTo(f.root, c18IsCallTo(f.mkdir))
 	n := 0
-	var mk ssa.CallInstruction
 	for g := range c.reachableFns([]*ssa.Function{fn}, false) {
 		if fnPkg(g) != fnPkg(fn) {
 			continue
@@ -244,19 +309,23 @@ func c18r2(c *Ctx) {
 				continue
 			}
 			n++
-			if types.Object(calleeObj(cs.Call)) == types.Object(f.mkdir) && cs.Fn == fn && mk == nil {
-				mk = cs.Call
+			if len(mks) == 1 && cs.Call == mks[0].call {
 				continue
 			}
 			c.Violate(rule, fnName(cs.Fn)+"#creates:"+calleeObj(cs.Call).FullName(), "a second call that can create a filesystem object in the client exchange", cs.Call.Pos())
 		}
 	}
-	if mk == nil {
-		c.Violate(rule, fnName(fn)+"#Mkdir", "no (*os.Root).Mkdir call in the client exchange", fn.Pos())
+	if len(mks) != 1 {
+		if len(mks) == 0 {
+			c.Violate(rule, fnName(fn)+"#Mkdir", "no (*os.Root).Mkdir call in the client exchange", fn.Pos())
+		} else {
+			c.Violate(rule, fnName(fn)+"#Mkdir", fmt.Sprintf("(*os.Root).Mkdir can be reached through %d call sites of the client exchange", len(mks)), mks[1].call.Pos())
+		}
 	} else {
-		_, isDefer := mk.(*ssa.Defer)
-		loop := findPath(after(mk), Target{Instr: mk}, nil)
-		c.Check(loop == nil && !isDefer, rule, fnName(fn)+"#Mkdir-once", "Mkdir is executed at most once per exchange", "Mkdir can be executed more than once in one exchange (it is on a cycle)", mk.Pos(), c.describePath(loop)...)
+		mk := mks[0]
+		_, isDefer := mk.call.(*ssa.Defer)
+		loop := c18OnCycle(mk.env, mk.call)
+		c.Check(loop == nil && !isDefer, rule, fnName(fn)+"#Mkdir-once", "Mkdir is executed at most once per exchange", "Mkdir can be executed more than once in one exchange (it is on a cycle)", mk.call.Pos(), c.describePath(loop)...)
 	}
 	c.MinCount(rule, "creating calls", n, 1)
 }
@@ -264,7 +333,7 @@ func c18r2(c *Ctx) {
 // C18-R3: composition of the validator.
 func c18r3(c *Ctx) {
 	const rule = "C18-R3"
-	c.Doc(rule, "validateFSAuthPath: every success return passes non-empty, filepath.IsAbs, Clean(p)==p, Dir(p)==fsAuthBaseDir, and then either verifyFSPathEndpoint==nil on the fields fsAddrLeaf extracted (ok edge) or MatchString of a package-level pattern that is ^…$-anchored as a whole and admits no '/' or NUL; the returned name is filepath.Base(p). fsAddrLeaf says ok only after prefix, three fields, ParseIP and the suffix pattern; verifyFSPathEndpoint succeeds only after non-nil address, equal port and IP.Equal")
+	c.Doc(rule, "validateFSAuthPath (with the same-package helpers it calls): every success return passes non-empty, filepath.IsAbs, Clean(p)==p, Dir(p)==fsAuthBaseDir, and then either verifyFSPathEndpoint==nil on the fields fsAddrLeaf extracted (ok edge) or MatchString of a package-level pattern that is ^…$-anchored as a whole and admits no '/' or NUL; the returned name is filepath.Base(p). fsAddrLeaf says ok only after prefix, three fields, ParseIP and the suffix pattern; verifyFSPathEndpoint succeeds only after non-nil address, equal port and IP.Equal")
 	v := c.needFn(rule, "security", "validateFSAuthPath")
 	fal := c.needFn(rule, "security", "fsAddrLeaf")
 	vep := c.needFn(rule, "security", "verifyFSPathEndpoint")
@@ -281,95 +350,104 @@ func c18r3(c *Ctx) {
 		c.Undecided(rule, fnName(v)+"#signature", "unexpected validateFSAuthPath signature", v.Pos())
 		return
 	}
-	p0 := ssa.Value(v.Params[0])
-	isP0 := func(x ssa.Value) bool { return x == p0 }
-	callOn := func(x ssa.Value, f *types.Func, arg func(ssa.Value) bool) bool {
-		call := c18CallOf(x, f, 0)
-		return call != nil && len(call.Common().Args) == 1 && arg(call.Common().Args[0])
-	}
-	isLeaf := func(x ssa.Value) bool {
-		for _, o := range c18Origins(x) {
-			if !callOn(o, baseFn, isP0) {
-				return false
-			}
+	root := c11Root(v)
+	par := func(i int) func(c11LV) bool {
+		return func(x c11LV) bool {
+			return c.c11All(x, func(l c11LV) bool { return l.V == ssa.Value(v.Params[i]) && l.E == root })
 		}
-		return true
 	}
+	isP0 := par(0)
+	callOn := func(x c11LV, f *types.Func, arg func(c11LV) bool) bool {
+		return c.c11All(x, func(l c11LV) bool {
+			call := c18CallOf(l.V, f, 0)
+			return call != nil && len(call.Common().Args) == 1 && arg(c11LV{call.Common().Args[0], l.E})
+		})
+	}
+	isLeaf := func(x c11LV) bool { return callOn(x, baseFn, isP0) }
 	succ := c18RetTargets(c.successTargets(v))
 	name := fnName(v)
 	// 1 non-empty
-	_, ne := c18CmpEdges(v, func(x, y ssa.Value) bool { s, ok := constString(y); return x == p0 && ok && s == "" })
-	c.c18MustPass(rule, name+"#non-empty", v, nil, succ, newCuts().AddEdges(ne...), len(ne), "the path != \"\" edge", v.Pos())
+	c.c11Pass(rule, name+"#non-empty", root, nil, succ, c11CmpFact(false, func(x, y c11LV) bool { return isP0(x) && c.c11LVConstString(y, "") }), nil, "the path != \"\" edge", v.Pos())
 	// 2 absolute
-	var absT []Edge
-	for _, cs := range callsIn(v, isAbs) {
-		if cs.Common().Args[0] == p0 {
-			t, _ := boolEdges(v, cs.Value())
-			absT = append(absT, t...)
-		}
-	}
-	c.c18MustPass(rule, name+"#absolute", v, nil, succ, newCuts().AddEdges(absT...), len(absT), "the true edge of filepath.IsAbs(path)", v.Pos())
+	abs := c11Fact{boolR: func(call ssa.CallInstruction, e *c11Env) (int, bool, bool) {
+		co := calleeObj(call)
+		ok := co != nil && types.Object(co) == types.Object(isAbs) && isP0(c11LV{call.Common().Args[0], e})
+		return 0, true, ok
+	}}
+	c.c11Pass(rule, name+"#absolute", root, nil, succ, abs, nil, "the true edge of filepath.IsAbs(path)", v.Pos())
 	// 3 canonical
-	eq, _ := c18CmpEdges(v, func(x, y ssa.Value) bool { return callOn(x, clean, isP0) && y == p0 })
-	c.c18MustPass(rule, name+"#canonical", v, nil, succ, newCuts().AddEdges(eq...), len(eq), "the filepath.Clean(path) == path edge", v.Pos())
+	c.c11Pass(rule, name+"#canonical", root, nil, succ, c11CmpFact(true, func(x, y c11LV) bool { return callOn(x, clean, isP0) && isP0(y) }), nil, "the filepath.Clean(path) == path edge", v.Pos())
 	// 4 parent is the base
-	eq, _ = c18CmpEdges(v, func(x, y ssa.Value) bool {
-		s, ok := constString(y)
-		return callOn(x, dir, isP0) && ok && s == base
-	})
-	c.c18MustPass(rule, name+"#parent-is-base", v, nil, succ, newCuts().AddEdges(eq...), len(eq), "the filepath.Dir(path) == fsAuthBaseDir edge", v.Pos())
+	c.c11Pass(rule, name+"#parent-is-base", root, nil, succ, c11CmpFact(true, func(x, y c11LV) bool { return callOn(x, dir, isP0) && c.c11LVConstString(y, base) }), nil, "the filepath.Dir(path) == fsAuthBaseDir edge", v.Pos())
 	// 5 leaf form: endpoint-checked address form, or an anchored pattern
-	var formEdges []Edge
-	nForm := 0
-	for _, cs := range callsIn(v, vep.Object()) {
-		a := cs.Common().Args
-		// arguments: ip and port as extracted by fsAddrLeaf from the leaf, on its ok edge; the caller's address
-		ipCall := c18CallOf(a[0], fal.Object(), 0)
-		portCall := c18CallOf(a[1], fal.Object(), 1)
-		good := ipCall != nil && ipCall == portCall && a[2] == ssa.Value(v.Params[2]) && isLeaf(ipCall.Common().Args[0]) && ipCall.Common().Args[1] == ssa.Value(v.Params[1])
-		if good {
-			okE, _ := boolEdges(v, extractN(ipCall.Value(), 2))
-			good = len(okE) > 0 && findPath(entryPoint(v), Target{Instr: cs}, newCuts().AddEdges(okE...)) == nil
-		}
-		c.Check(good, rule, name+"#endpoint-args", "verifyFSPathEndpoint receives the ip/port fsAddrLeaf extracted from the leaf (ok edge) and the caller's address", "verifyFSPathEndpoint is not applied to the fields fsAddrLeaf(leaf, remote) reported ok, or not to the connection address", cs.Pos())
-		if s, _, checked := callErrEdges(v, cs.Value()); checked && good {
-			formEdges = append(formEdges, s...)
-			nForm++
-		}
-	}
 	patterns := map[*ssa.Global]bool{}
-	for _, cs := range callsIn(v, match) {
-		a := cs.Common().Args
-		good := isLeaf(a[1])
-		for _, o := range c18Origins(a[0]) {
-			ld, ok := o.(*ssa.UnOp)
-			g, isG := (ssa.Value)(nil), false
-			if ok && ld.Op == token.MUL {
-				g, isG = ld.X.(*ssa.Global)
+	isPattern := func(x c11LV, record bool) bool {
+		return c.c11All(x, func(l c11LV) bool {
+			ld, ok := l.V.(*ssa.UnOp)
+			if !ok || ld.Op != token.MUL {
+				return false
 			}
-			if !isG {
-				good = false
-				continue
+			g, isG := ld.X.(*ssa.Global)
+			if isG && record {
+				patterns[g] = true
 			}
-			patterns[g.(*ssa.Global)] = true
+			return isG
+		})
+	}
+	endpoint := c11Fact{errOK: func(call ssa.CallInstruction, e *c11Env) bool {
+		co := calleeObj(call)
+		if co == nil || types.Object(co) != vep.Object() || len(call.Common().Args) != 3 {
+			return false
 		}
-		c.Check(good, rule, name+"#pattern-args", "the leaf is matched against package-level patterns", "MatchString is not applied to filepath.Base(path) with a package-level pattern", cs.Pos())
-		if good {
-			t, _ := boolEdges(v, cs.Value())
-			formEdges = append(formEdges, t...)
-			nForm++
+		a := call.Common().Args
+		// arguments: ip and port as extracted by fsAddrLeaf from the leaf, on its ok edge; the caller's address
+		ipLV, okIP := c.c11One(c11LV{a[0], e})
+		portLV, okPort := c.c11One(c11LV{a[1], e})
+		if !okIP || !okPort {
+			return false
+		}
+		ipCall := c18CallOf(ipLV.V, fal.Object(), 0)
+		portCall := c18CallOf(portLV.V, fal.Object(), 1)
+		if ipCall == nil || ipCall != portCall || ipLV.E != portLV.E || !par(2)(c11LV{a[2], e}) {
+			return false
+		}
+		fa := ipCall.Common().Args
+		if !isLeaf(c11LV{fa[0], ipLV.E}) || !par(1)(c11LV{fa[1], ipLV.E}) {
+			return false
+		}
+		okd := c11Fact{boolR: func(cl ssa.CallInstruction, ce *c11Env) (int, bool, bool) {
+			return 2, true, cl == ipCall && ce == ipLV.E
+		}}
+		guarded, _ := c.c11NewQuery(okd).guards(nil, e, call)
+		return guarded
+	}}
+	pattern := c11Fact{boolR: func(call ssa.CallInstruction, e *c11Env) (int, bool, bool) {
+		co := calleeObj(call)
+		if co == nil || types.Object(co) != types.Object(match) || len(call.Common().Args) != 2 {
+			return 0, false, false
+		}
+		a := call.Common().Args
+		return 0, true, isLeaf(c11LV{a[1], e}) && isPattern(c11LV{a[0], e}, false)
+	}}
+	c.c11Pass(rule, name+"#leaf-form", root, nil, succ, c11AnyFact(endpoint, pattern), nil, "verifyFSPathEndpoint == nil (on the fields fsAddrLeaf(leaf, remote) reported ok, and the connection address) or a match of the leaf against a package-level pattern", v.Pos())
+	for _, cs := range c11CallsTo(root, func(call ssa.CallInstruction) bool {
+		co := calleeObj(call)
+		return co != nil && types.Object(co) == types.Object(match)
+	}) {
+		a := cs.call.Common().Args
+		if len(a) == 2 && isLeaf(c11LV{a[1], cs.env}) {
+			isPattern(c11LV{a[0], cs.env}, true)
 		}
 	}
-	c.c18MustPass(rule, name+"#leaf-form", v, nil, succ, newCuts().AddEdges(formEdges...), nForm, "verifyFSPathEndpoint == nil or a leaf-pattern match", v.Pos())
 	// 6 returned name
 	okRet := len(succ) > 0
 	for _, t := range c.successTargets(v) {
-		if !isLeaf(t.Ret.Results[0]) {
+		if !isLeaf(c11LV{t.Ret.Results[0], root}) {
 			okRet = false
 		}
 	}
 	c.Check(okRet, rule, name+"#result", "the returned name is filepath.Base(path)", "a success return yields something other than filepath.Base(path)", v.Pos())
-	c.MinCount(rule, "success returns of validateFSAuthPath", len(succ), 2)
+	c.MinCount(rule, "success returns of validateFSAuthPath", len(succ), 1)
 
 	// fsAddrLeaf
 	c.c18FsAddrLeaf(rule, fal, match, patterns)
@@ -390,9 +468,32 @@ func c18r3(c *Ctx) {
 			c.Violate(rule, construct, "pattern "+pat+": "+probs[0], g.Pos(), probs...)
 		}
 	}
-	c.MinCount(rule, "leaf patterns", np, 3)
+	c.MinCount(rule, "leaf patterns", np, 1)
 	// verifyFSPathEndpoint
 	c.c18Endpoint(rule, vep)
+}
+
+// c18OkReturns: the returns of fn whose last (boolean) result can be true, split by predecessor when
+// that result is a phi of the return block.
+func c18OkReturns(fn *ssa.Function) []Target {
+	var out []Target
+	for _, r := range c18AllReturns(fn) {
+		last := r.Results[len(r.Results)-1]
+		if phi, ok := last.(*ssa.Phi); ok && phi.Block() == r.Block() {
+			for i, e := range phi.Edges {
+				if b, isC := constBool(e); isC && !b {
+					continue
+				}
+				out = append(out, Target{Instr: r, Pred: r.Block().Preds[i]})
+			}
+			continue
+		}
+		if b, isC := constBool(last); isC && !b {
+			continue
+		}
+		out = append(out, Target{Instr: r})
+	}
+	return out
 }
 
 // c18FsAddrLeaf: the ok=true returns of fsAddrLeaf.
@@ -404,84 +505,106 @@ func (c *Ctx) c18FsAddrLeaf(rule string, fal *ssa.Function, match *types.Func, p
 	if cut == nil || split == nil || parseIP == nil || len(fal.Params) != 2 {
 		return
 	}
-	var okRets []Target
-	for _, r := range c18AllReturns(fal) {
-		if b, isC := constBool(r.Results[len(r.Results)-1]); isC && !b {
-			continue
-		}
-		okRets = append(okRets, Target{Instr: r})
+	root := c11Root(fal)
+	isLeafPar := func(x c11LV) bool {
+		return c.c11All(x, func(l c11LV) bool { return l.V == ssa.Value(fal.Params[0]) && l.E == root })
 	}
-	// field i of strings.Split(rest, "_") where rest is the remainder CutPrefix(leaf, prefix) reported
-	field := func(x ssa.Value, i int64) bool {
-		ld, ok := x.(*ssa.UnOp)
-		if !ok || ld.Op != token.MUL {
-			return false
-		}
-		ia, ok := ld.X.(*ssa.IndexAddr)
-		if !ok {
-			return false
-		}
-		idx, isC := constInt(ia.Index)
-		sp := c18CallOf(ia.X, split, 0)
-		if !isC || idx != i || sp == nil {
-			return false
-		}
-		cp := c18CallOf(sp.Common().Args[0], cut, 0)
-		return cp != nil && cp.Common().Args[0] == ssa.Value(fal.Params[0])
+	okRets := c18OkReturns(fal)
+	// fields = strings.Split(rest, "_") where rest is the remainder CutPrefix(leaf, prefix) reported
+	isFields := func(x c11LV) bool {
+		return c.c11All(x, func(l c11LV) bool {
+			sp := c18CallOf(l.V, split, 0)
+			if sp == nil {
+				return false
+			}
+			return c.c11All(c11LV{sp.Common().Args[0], l.E}, func(m c11LV) bool {
+				cp := c18CallOf(m.V, cut, 0)
+				return cp != nil && isLeafPar(c11LV{cp.Common().Args[0], m.E})
+			})
+		})
+	}
+	field := func(x c11LV, i int64) bool {
+		return c.c11All(x, func(l c11LV) bool {
+			ld, ok := l.V.(*ssa.UnOp)
+			if !ok || ld.Op != token.MUL {
+				return false
+			}
+			ia, ok := ld.X.(*ssa.IndexAddr)
+			if !ok {
+				return false
+			}
+			idx, isC := constInt(ia.Index)
+			return isC && idx == i && isFields(c11LV{ia.X, l.E})
+		})
 	}
 	// prefix found
-	var found []Edge
-	for _, cs := range callsIn(fal, cut) {
-		good := cs.Common().Args[0] == ssa.Value(fal.Params[0])
-		for _, o := range c18Origins(cs.Common().Args[1]) {
-			s, isC := constString(o)
-			if !isC || len(s) < 3 || s[:3] != "FS_" {
-				good = false
-			}
+	found := c11Fact{boolR: func(call ssa.CallInstruction, e *c11Env) (int, bool, bool) {
+		co := calleeObj(call)
+		if co == nil || types.Object(co) != types.Object(cut) || !isLeafPar(c11LV{call.Common().Args[0], e}) {
+			return 0, false, false
 		}
-		if good {
-			t, _ := boolEdges(fal, extractN(cs.Value(), 1))
-			found = append(found, t...)
-		}
-	}
-	c.c18MustPass(rule, name+"#prefix", fal, nil, okRets, newCuts().AddEdges(found...), len(found), "the found edge of strings.CutPrefix(leaf, \"FS_…\")", fal.Pos())
+		good := c.c11All(c11LV{call.Common().Args[1], e}, func(l c11LV) bool {
+			s, isC := constString(l.V)
+			return isC && len(s) >= 3 && s[:3] == "FS_"
+		})
+		return 1, true, good
+	}}
+	c.c11Pass(rule, name+"#prefix", root, nil, okRets, found, nil, "the found edge of strings.CutPrefix(leaf, \"FS_…\")", fal.Pos())
 	// exactly three fields
-	eq, _ := c18CmpEdges(fal, func(x, y ssa.Value) bool {
-		n, isC := constInt(y)
-		call, ok := x.(*ssa.Call)
-		if !ok || !isC || n != 3 {
+	three := c11CmpFact(true, func(x, y c11LV) bool {
+		if !c.c11LVConstInt(y, 3) {
 			return false
 		}
-		b, isB := call.Call.Value.(*ssa.Builtin)
-		return isB && b.Name() == "len" && c18CallOf(call.Call.Args[0], split, 0) != nil
+		return c.c11All(x, func(l c11LV) bool {
+			call, ok := l.V.(*ssa.Call)
+			if !ok {
+				return false
+			}
+			b, isB := call.Call.Value.(*ssa.Builtin)
+			return isB && b.Name() == "len" && isFields(c11LV{call.Call.Args[0], l.E})
+		})
 	})
-	c.c18MustPass(rule, name+"#three-fields", fal, nil, okRets, newCuts().AddEdges(eq...), len(eq), "the len(fields) == 3 edge", fal.Pos())
+	c.c11Pass(rule, name+"#three-fields", root, nil, okRets, three, nil, "the len(fields) == 3 edge", fal.Pos())
 	// first field is an IP address
-	_, ne := c18CmpEdges(fal, func(x, y ssa.Value) bool {
-		call := c18CallOf(x, parseIP, 0)
-		return call != nil && isNilConst(y) && field(call.Common().Args[0], 0)
+	isIP := c11CmpFact(false, func(x, y c11LV) bool {
+		if !c.c11LVNil(y) {
+			return false
+		}
+		return c.c11All(x, func(l c11LV) bool {
+			call := c18CallOf(l.V, parseIP, 0)
+			return call != nil && field(c11LV{call.Common().Args[0], l.E}, 0)
+		})
 	})
-	c.c18MustPass(rule, name+"#ip-field", fal, nil, okRets, newCuts().AddEdges(ne...), len(ne), "the net.ParseIP(fields[0]) != nil edge", fal.Pos())
+	c.c11Pass(rule, name+"#ip-field", root, nil, okRets, isIP, nil, "the net.ParseIP(fields[0]) != nil edge", fal.Pos())
 	// suffix pattern
-	var sfx []Edge
-	for _, cs := range callsIn(fal, match) {
-		a := cs.Common().Args
-		ld, ok := a[0].(*ssa.UnOp)
-		if !ok || ld.Op != token.MUL || !field(a[1], 2) {
-			continue
+	sfx := c11Fact{boolR: func(call ssa.CallInstruction, e *c11Env) (int, bool, bool) {
+		co := calleeObj(call)
+		if co == nil || types.Object(co) != types.Object(match) || len(call.Common().Args) != 2 {
+			return 0, false, false
 		}
-		if g, isG := ld.X.(*ssa.Global); isG {
-			patterns[g] = true
-			t, _ := boolEdges(fal, cs.Value())
-			sfx = append(sfx, t...)
+		a := call.Common().Args
+		if !field(c11LV{a[1], e}, 2) {
+			return 0, false, false
 		}
-	}
-	c.c18MustPass(rule, name+"#suffix-field", fal, nil, okRets, newCuts().AddEdges(sfx...), len(sfx), "a match of the suffix pattern on fields[2]", fal.Pos())
+		isG := c.c11All(c11LV{a[0], e}, func(l c11LV) bool {
+			ld, ok := l.V.(*ssa.UnOp)
+			if !ok || ld.Op != token.MUL {
+				return false
+			}
+			g, ok := ld.X.(*ssa.Global)
+			if ok {
+				patterns[g] = true
+			}
+			return ok
+		})
+		return 0, true, isG
+	}}
+	c.c11Pass(rule, name+"#suffix-field", root, nil, okRets, sfx, nil, "a match of the suffix pattern on fields[2]", fal.Pos())
 	// results are fields 0 and 1
 	okRes := len(okRets) > 0
 	for _, t := range okRets {
 		r := t.Instr.(*ssa.Return)
-		if len(r.Results) != 3 || !field(r.Results[0], 0) || !field(r.Results[1], 1) {
+		if len(r.Results) != 3 || !field(c11LV{r.Results[0], root}, 0) || !field(c11LV{r.Results[1], root}, 1) {
 			okRes = false
 		}
 	}
@@ -498,74 +621,90 @@ func (c *Ctx) c18Endpoint(rule string, vep *ssa.Function) {
 	if shp == nil || parseIP == nil || ipEq == nil || len(vep.Params) != 3 {
 		return
 	}
+	root := c11Root(vep)
+	par := func(i int) func(c11LV) bool {
+		return func(x c11LV) bool {
+			return c.c11All(x, func(l c11LV) bool { return l.V == ssa.Value(vep.Params[i]) && l.E == root })
+		}
+	}
 	succ := c18RetTargets(c.successTargets(vep))
-	addr := ssa.Value(vep.Params[2])
-	_, ne := c18CmpEdges(vep, func(x, y ssa.Value) bool { return x == addr && isNilConst(y) })
-	c.c18MustPass(rule, name+"#addr-non-nil", vep, nil, succ, newCuts().AddEdges(ne...), len(ne), "the peerAddr != nil edge", vep.Pos())
+	isAddr := par(2)
+	c.c11Pass(rule, name+"#addr-non-nil", root, nil, succ, c11CmpFact(false, func(x, y c11LV) bool { return isAddr(x) && c.c11LVNil(y) }), nil, "the peerAddr != nil edge", vep.Pos())
 	// host/port of the connection address
-	fromAddr := func(x ssa.Value, idx int) bool {
-		call := c18CallOf(x, shp, idx)
-		if call == nil {
+	isSHP := func(call ssa.CallInstruction, e *c11Env) bool {
+		co := calleeObj(call)
+		if co == nil || types.Object(co) != types.Object(shp) {
 			return false
 		}
-		s, ok := call.Common().Args[0].(*ssa.Call)
-		return ok && s.Call.IsInvoke() && s.Call.Method.Name() == "String" && s.Call.Value == addr
+		return c.c11All(c11LV{call.Common().Args[0], e}, func(l c11LV) bool {
+			s, ok := l.V.(*ssa.Call)
+			return ok && s.Call.IsInvoke() && s.Call.Method.Name() == "String" && isAddr(c11LV{s.Call.Value, l.E})
+		})
 	}
-	var parsed []Edge
-	for _, cs := range callsIn(vep, shp) {
-		if fromAddr(extractN(cs.Value(), 1), 1) || fromAddr(extractN(cs.Value(), 0), 0) {
-			s, _, _ := callErrEdges(vep, cs.Value())
-			parsed = append(parsed, s...)
+	fromAddr := func(x c11LV, idx int) bool {
+		return c.c11All(x, func(l c11LV) bool {
+			call, i := originCall(l.V)
+			return call != nil && i == idx && isSHP(call, l.E)
+		})
+	}
+	c.c11Pass(rule, name+"#addr-parsed", root, nil, succ, c11Fact{errOK: isSHP}, nil, "a nil-error net.SplitHostPort(peerAddr.String())", vep.Pos())
+	c.c11Pass(rule, name+"#port-equal", root, nil, succ, c11CmpFact(true, func(x, y c11LV) bool { return par(1)(x) && fromAddr(y, 1) }), nil, "the namePort == connection port edge", vep.Pos())
+	ipOf := func(x c11LV, want func(c11LV) bool) bool {
+		return c.c11All(x, func(l c11LV) bool {
+			call := c18CallOf(l.V, parseIP, 0)
+			return call != nil && want(c11LV{call.Common().Args[0], l.E})
+		})
+	}
+	isName := par(0)
+	isHost := func(x c11LV) bool { return fromAddr(x, 0) }
+	same := c11Fact{boolR: func(call ssa.CallInstruction, e *c11Env) (int, bool, bool) {
+		co := calleeObj(call)
+		if co == nil || types.Object(co) != types.Object(ipEq) || len(call.Common().Args) != 2 {
+			return 0, false, false
 		}
-	}
-	c.c18MustPass(rule, name+"#addr-parsed", vep, nil, succ, newCuts().AddEdges(parsed...), len(parsed), "a nil-error net.SplitHostPort(peerAddr.String())", vep.Pos())
-	eq, _ := c18CmpEdges(vep, func(x, y ssa.Value) bool { return x == ssa.Value(vep.Params[1]) && fromAddr(y, 1) })
-	c.c18MustPass(rule, name+"#port-equal", vep, nil, succ, newCuts().AddEdges(eq...), len(eq), "the namePort == connection port edge", vep.Pos())
-	ipOf := func(x ssa.Value, want func(ssa.Value) bool) bool {
-		call := c18CallOf(x, parseIP, 0)
-		return call != nil && want(call.Common().Args[0])
-	}
-	isName := func(x ssa.Value) bool { return x == ssa.Value(vep.Params[0]) }
-	isHost := func(x ssa.Value) bool { return fromAddr(x, 0) }
-	var same []Edge
-	for _, cs := range callsIn(vep, ipEq) {
-		a := cs.Common().Args
-		if (ipOf(a[0], isName) && ipOf(a[1], isHost)) || (ipOf(a[0], isHost) && ipOf(a[1], isName)) {
-			t, _ := boolEdges(vep, cs.Value())
-			same = append(same, t...)
-		}
-	}
-	c.c18MustPass(rule, name+"#ip-equal", vep, nil, succ, newCuts().AddEdges(same...), len(same), "the true edge of IP.Equal(ParseIP(nameIP), ParseIP(connection host))", vep.Pos())
+		x, y := c11LV{call.Common().Args[0], e}, c11LV{call.Common().Args[1], e}
+		return 0, true, (ipOf(x, isName) && ipOf(y, isHost)) || (ipOf(x, isHost) && ipOf(y, isName))
+	}}
+	c.c11Pass(rule, name+"#ip-equal", root, nil, succ, same, nil, "the true edge of IP.Equal(ParseIP(nameIP), ParseIP(connection host))", vep.Pos())
 	c.MinCount(rule, "success returns of verifyFSPathEndpoint", len(succ), 1)
 }
 
 // C18-R4: created => removed, defer-aware.
 func c18r4(c *Ctx) {
 	const rule = "C18-R4"
-	c.Doc(rule, "performFSAuthenticationClient: from the nil-error edge of (*os.Root).Mkdir(root, leaf) every path to every Return executes (*os.Root).Remove on that root and that leaf before the root is closed, directly or in a deferred closure registered on the path (closures executed at RunDefers in LIFO order; branches on captured variables decided from the values stored on the path)")
+	c.Doc(rule, "performFSAuthenticationClient: from the nil-error edge of (*os.Root).Mkdir(root, leaf) every path to every Return executes (*os.Root).Remove on that root and that leaf before the root is closed, directly or in a deferred closure registered on the path (closures executed at RunDefers in LIFO order; same-package helpers that reach Mkdir/Remove/Close executed inline; branches on captured variables decided from the values stored on the path)")
 	f := c.c18ClientAnchors(rule)
 	if f == nil {
 		return
 	}
 	fn := f.fn
-	mks := callsIn(fn, f.mkdir)
+	mks := c11CallsTo(f.root, c18IsCallTo(f.mkdir))
 	nExits := 0
-	for _, mk := range mks {
+	done := map[ssa.CallInstruction]bool{}
+	for _, mksite := range mks {
+		mk := mksite.call
+		if done[mk] {
+			continue
+		}
+		done[mk] = true
 		if _, isDefer := mk.(*ssa.Defer); isDefer {
 			c.Undecided(rule, fnName(fn)+"#Mkdir", "deferred Mkdir is not supported", mk.Pos())
 			continue
 		}
-		succ, _, checked := callErrEdges(fn, mk.Value())
-		if !checked {
+		succ := newCuts()
+		if c11NilErrCuts(mk.Parent(), mk, succ, false) == 0 {
 			c.Violate(rule, fnName(fn)+"#Mkdir", "the error of Mkdir is never tested: success cannot be told from failure", mk.Pos())
 			continue
 		}
-		a := mk.Common().Args
+		if len(succ.Via) > 0 || len(succ.Instrs) > 0 {
+			c.Undecided(rule, fnName(fn)+"#Mkdir", "the error of Mkdir is not branched on directly", mk.Pos())
+			continue
+		}
 		arm := map[Edge]bool{}
-		for _, e := range succ {
+		for e := range succ.Edges {
 			arm[e] = true
 		}
-		sim := &c18Sim{remove: f.remove, close: f.closeFn, root: c18Set(c18Origins(a[0])...), name: c18Set(c18Origins(a[1])...), arm: arm}
+		sim := &c18Sim{remove: f.remove, close: f.closeFn, create: mk, arm: arm, pkg: fnPkg(fn)}
 		type res struct {
 			guessed     bool
 			path        []*ssa.BasicBlock
@@ -573,7 +712,7 @@ func c18r4(c *Ctx) {
 		}
 		bad := map[*ssa.Return]*res{}
 		all := map[*ssa.Return]bool{}
-		sim.run(fn, fn.Blocks[0], 0, c18State{cells: map[*ssa.Alloc]ssa.Value{}}, map[string]bool{}, nil, func(x c18Exit) {
+		sim.run(fn, fn.Blocks[0], 0, c18State{cells: map[*ssa.Alloc]ssa.Value{}, binds: map[ssa.Value]ssa.Value{}}, map[string]bool{}, nil, func(x c18Exit) {
 			if !x.State.armed {
 				return
 			}
@@ -610,87 +749,75 @@ func c18r4(c *Ctx) {
 		}
 	}
 	c.MinCount(rule, "Mkdir call sites", len(mks), 1)
-	c.MinCount(rule, "returns reachable after a successful Mkdir", nExits, 7)
+	c.MinCount(rule, "returns reachable after a successful Mkdir", nExits, 1)
 }
 
 // C18-R5: one result integer, 0 only after a successful Mkdir.
 func c18r5(c *Ctx) {
 	const rule = "C18-R5"
-	c.Doc(rule, "performFSAuthenticationClient: there is one PutInt call, not on a cycle; every path from the validateFSAuthPath call to a Return passes it; the integer sent is 0 only when assigned under the nil-error edge of Mkdir (all other assignments are non-zero constants)")
+	c.Doc(rule, "performFSAuthenticationClient (with the same-package helpers it calls): there is one PutInt call, not on a cycle; every path from the validateFSAuthPath call to a Return passes it; the integer sent is 0 only when assigned under the nil-error edge of Mkdir (all other assignments are non-zero constants)")
 	f := c.c18ClientAnchors(rule)
 	putInt := c.needFn(rule, "message", "(*Message).PutInt")
 	if f == nil || putInt == nil {
 		return
 	}
 	fn := f.fn
-	var puts []ssa.CallInstruction
-	for _, g := range withClosures(fn) {
-		puts = append(puts, callsIn(g, putInt.Object())...)
+	puts := c11CallsTo(f.root, c18IsCallTo(putInt.Object()))
+	inClosures := 0
+	for _, g := range withClosures(fn)[1:] {
+		inClosures += len(callsIn(g, putInt.Object()))
 	}
-	if len(puts) != 1 || puts[0].Parent() != fn {
-		c.Violate(rule, fnName(fn)+"#one-reply", fmt.Sprintf("expected exactly one PutInt in the client exchange, found %d", len(puts)), fn.Pos())
-		c.MinCount(rule, "PutInt call sites", len(puts), 1)
+	if len(puts) != 1 || inClosures > 0 {
+		c.Violate(rule, fnName(fn)+"#one-reply", fmt.Sprintf("expected exactly one PutInt in the client exchange, found %d", len(puts)+inClosures), fn.Pos())
+		c.MinCount(rule, "PutInt call sites", len(puts)+inClosures, 1)
 		return
 	}
 	put := puts[0]
-	loop := findPath(after(put), Target{Instr: put}, nil)
-	c.Check(loop == nil, rule, fnName(fn)+"#one-reply", "the result integer is sent at most once", "the result integer can be sent more than once (PutInt is on a cycle)", put.Pos(), c.describePath(loop)...)
+	loop := c18OnCycle(put.env, put.call)
+	c.Check(loop == nil, rule, fnName(fn)+"#one-reply", "the result integer is sent at most once", "the result integer can be sent more than once (PutInt is on a cycle)", put.call.Pos(), c.describePath(loop)...)
 	var rets []Target
 	for _, r := range c18AllReturns(fn) {
 		rets = append(rets, Target{Instr: r})
 	}
-	start := after(f.vcall)
-	c.c18MustPass(rule, fnName(fn)+"#reply-always", fn, &start, rets, newCuts().AddInstrs(put), 1, "the PutInt reply (whatever validateFSAuthPath said)", put.Pos())
+	start := after(f.vsite.site)
+	if f.vsite.site == put.site {
+		// both inside the same helper call: the reply follows the validation there or not at all
+		start = entryPoint(fn)
+	}
+	sent := c11Fact{instr: func(in ssa.Instruction, _ *c11Env) bool { return in == ssa.Instruction(put.call) }}
+	c.c11Pass(rule, fnName(fn)+"#reply-always", f.root, &start, rets, sent, nil, "the PutInt reply (whatever validateFSAuthPath said)", put.call.Pos())
 	// value sent
-	var mkSucc []Edge
-	for _, mk := range callsIn(fn, f.mkdir) {
-		s, _, _ := callErrEdges(fn, mk.Value())
-		mkSucc = append(mkSucc, s...)
-	}
-	val := put.Common().Args[len(put.Common().Args)-1]
-	type asg struct {
-		v   ssa.Value
-		blk *ssa.BasicBlock
-		pos token.Pos
-	}
-	var asgs []asg
-	if ld, ok := val.(*ssa.UnOp); ok && ld.Op == token.MUL && c18Cell(ld.X) != nil {
-		for _, st := range c18CellStores(c18Cell(ld.X)) {
-			if st.Parent() != fn {
-				c.Undecided(rule, fnName(fn)+"#reply-value", "the result variable is assigned inside a closure", st.Pos())
-				continue
-			}
-			asgs = append(asgs, asg{st.Val, st.Block(), st.Pos()})
-		}
-	} else {
-		for _, l := range c18PhiLeaves(val) {
-			if l.From == nil {
-				l.From = put.Block()
-			}
-			asgs = append(asgs, asg{l.V, l.From, put.Pos()})
-		}
-	}
+	created := c.c11NewQuery(c11Fact{errOK: func(call ssa.CallInstruction, _ *c11Env) bool { return c18IsCallTo(f.mkdir)(call) }})
+	val := c11LV{put.call.Common().Args[len(put.call.Common().Args)-1], put.env}
+	asgs := c.c18ValueSites(val)
 	okVal, zero := len(asgs) > 0, 0
 	why := ""
 	for _, a := range asgs {
-		n, isC := constInt(a.v)
-		if isC && n != 0 {
+		if n, isC := constInt(a.val.V); isC && n != 0 {
 			continue
 		}
 		zero++
-		if len(mkSucc) == 0 || len(a.blk.Instrs) == 0 || findPath(entryPoint(fn), Target{Instr: a.blk.Instrs[0]}, newCuts().AddEdges(mkSucc...)) != nil {
+		guarded := false
+		if a.at != nil && a.env != nil {
+			guarded, _ = created.guards(nil, a.env, a.at)
+		}
+		if !guarded {
 			okVal = false
-			why = "the result is set to 0 (or a non-constant) at " + c.Pos(a.pos) + " outside the region dominated by a successful Mkdir"
+			pos := put.call.Pos()
+			if a.at != nil {
+				pos = a.at.Pos()
+			}
+			why = "the result is set to 0 (or a non-constant) at " + c.Pos(pos) + " outside the region dominated by a successful Mkdir"
 		}
 	}
-	c.Check(okVal && zero > 0, rule, fnName(fn)+"#reply-value", "0 is sent only after Mkdir succeeded; all other values are non-zero constants", "success (0) can be reported without a created directory: "+why, put.Pos())
-	c.MinCount(rule, "assignments of the result integer", len(asgs), 2)
+	c.Check(okVal && zero > 0, rule, fnName(fn)+"#reply-value", "0 is sent only after Mkdir succeeded; all other values are non-zero constants", "success (0) can be reported without a created directory: "+why, put.call.Pos())
+	c.MinCount(rule, "assignments of the result integer", len(asgs), 1)
 }
 
 // C18-R6: server-side verification dominates the recorded identity.
 func c18r6(c *Ctx) {
 	const rule = "C18-R6"
-	c.Doc(rule, "performFSAuthenticationServer: the store to negotiation.User is dominated by os.Lstat==nil on the path string that was sent to the client, Mode().IsDir(), Mode()&ModeSymlink==0, Perm()==0700, Nlink==1||Nlink==2 and user.LookupId==nil on the Uid of that Lstat's Stat_t; the stored name is that user's; the success return requires the result variable to be 0, and 0 is assigned only in that region")
+	c.Doc(rule, "performFSAuthenticationServer (with the same-package helpers it calls): the store to negotiation.User is dominated by os.Lstat==nil on the path string that was sent to the client, Mode().IsDir(), Mode()&ModeSymlink==0, Perm()==0700, Nlink==1||Nlink==2 and user.LookupId==nil on the Uid of that Lstat's Stat_t; the stored name is that user's; the success return requires the result variable to be 0, and 0 is assigned only in that region")
 	fn := c.needFn(rule, "security", c18Server)
 	user := c.needField(rule, "security", "SecurityNegotiation", "User")
 	lstat := c.c18ExtFn(rule, "os", "Lstat")
@@ -701,234 +828,259 @@ func c18r6(c *Ctx) {
 		return
 	}
 	name := fnName(fn)
-	var stores []*ssa.Store
-	for _, g := range withClosures(fn) {
+	root := c11Root(fn)
+	isCall := func(f types.Object) func(ssa.CallInstruction) bool {
+		return func(call ssa.CallInstruction) bool {
+			co := calleeObj(call)
+			return co != nil && types.Object(co) == f
+		}
+	}
+	stores := c11Stores(root, user)
+	for _, g := range withClosures(fn)[1:] {
 		allInstrs(g, func(_ *ssa.BasicBlock, _ int, in ssa.Instruction) {
 			if st, ok := in.(*ssa.Store); ok {
 				if fa, ok := st.Addr.(*ssa.FieldAddr); ok && fieldOfAddr(fa) == user {
-					stores = append(stores, st)
+					stores = append(stores, c11StoreSite{site: st, st: st, val: c11LV{st.Val, &c11Env{fn: g, parent: root}}})
 				}
 			}
 		})
 	}
 	c.MinCount(rule, "stores to negotiation.User", len(stores), 1)
 	// the path sent to the client
-	var sent []ssa.Value
-	for _, cs := range callsIn(fn, putStr.Object()) {
-		sent = append(sent, cs.Common().Args[len(cs.Common().Args)-1])
+	var sent []c11LV
+	for _, cs := range c11CallsTo(root, isCall(putStr.Object())) {
+		sent = append(sent, c11LV{cs.call.Common().Args[len(cs.call.Common().Args)-1], cs.env})
 	}
 	// Lstat on that path
-	var lsCalls []ssa.CallInstruction
-	for _, cs := range callsIn(fn, lstat) {
-		for _, s := range sent {
-			if cs.Common().Args[0] == s {
-				lsCalls = append(lsCalls, cs)
-			}
+	isLstat := func(call ssa.CallInstruction, e *c11Env) bool {
+		return isCall(lstat)(call) && c11SameLeaves(c11LV{call.Common().Args[0], e}, sent)
+	}
+	nLstat := 0
+	for _, cs := range c11CallsTo(root, isCall(lstat)) {
+		if isLstat(cs.call, cs.env) {
+			nLstat++
 		}
 	}
-	if len(lsCalls) == 0 {
+	if nLstat == 0 {
 		c.Violate(rule, name+"#lstat", "no os.Lstat on the path string that was sent to the client (os.Stat would follow a symlink)", fn.Pos())
 		return
 	}
-	// groups of edges that must all be passed
-	type group struct {
-		label, what string
-		edges       []Edge
+	// info: result #0 of such an Lstat
+	isInfo := func(x c11LV) bool {
+		return c.c11All(x, func(l c11LV) bool {
+			call, idx := originCall(l.V)
+			return call != nil && idx == 0 && isLstat(call, l.E)
+		})
 	}
-	var groups []group
-	var lsOK []Edge
-	infos := map[ssa.Value]bool{}
-	for _, cs := range lsCalls {
-		s, _, _ := callErrEdges(fn, cs.Value())
-		lsOK = append(lsOK, s...)
-		infos[extractN(cs.Value(), 0)] = true
-	}
-	groups = append(groups, group{"lstat-ok", "os.Lstat(path) == nil", lsOK})
 	// mode := info.Mode()
-	isMode := func(x ssa.Value) bool {
-		call, ok := x.(*ssa.Call)
-		return ok && call.Call.IsInvoke() && call.Call.Method.Name() == "Mode" && infos[call.Call.Value]
+	isMode := func(x c11LV) bool {
+		return c.c11All(x, func(l c11LV) bool {
+			call, ok := l.V.(*ssa.Call)
+			return ok && call.Call.IsInvoke() && call.Call.Method.Name() == "Mode" && isInfo(c11LV{call.Call.Value, l.E})
+		})
 	}
-	var isDirT, permEq, symEq, nl1, nl2, lookOK []Edge
-	statOf := func(x ssa.Value) bool { // x is the *syscall.Stat_t of info.Sys()
-		for _, o := range c18Origins(x) {
-			ex, ok := o.(*ssa.Extract)
-			if !ok || ex.Index != 0 {
-				return false
+	statOf := func(x c11LV) bool { // x is the *syscall.Stat_t of info.Sys()
+		return c.c11All(x, func(l c11LV) bool {
+			ex, ok := l.V.(*ssa.Extract)
+			var ta *ssa.TypeAssert
+			if ok && ex.Index == 0 {
+				ta, ok = ex.Tuple.(*ssa.TypeAssert)
+			} else {
+				ta, ok = l.V.(*ssa.TypeAssert)
 			}
-			ta, ok := ex.Tuple.(*ssa.TypeAssert)
 			if !ok {
 				return false
 			}
-			call, ok := ta.X.(*ssa.Call)
-			if !ok || !call.Call.IsInvoke() || call.Call.Method.Name() != "Sys" || !infos[call.Call.Value] {
+			return c.c11All(c11LV{ta.X, l.E}, func(m c11LV) bool {
+				call, ok := m.V.(*ssa.Call)
+				return ok && call.Call.IsInvoke() && call.Call.Method.Name() == "Sys" && isInfo(c11LV{call.Call.Value, m.E})
+			})
+		})
+	}
+	statField := func(x c11LV, field string) bool {
+		return c.c11All(x, func(l c11LV) bool {
+			base, f, ok := fieldRead(l.V)
+			return ok && f.Name() == field && f.Pkg() != nil && f.Pkg().Path() == "syscall" && statOf(c11LV{base, l.E})
+		})
+	}
+	modeCall := func(lv c11LV, method string) bool { // fs.FileMode.<method>(mode)
+		return c.c11All(lv, func(l c11LV) bool {
+			call, ok := l.V.(*ssa.Call)
+			if !ok {
 				return false
 			}
-		}
-		return true
+			pkg, nm := c18CalleePkg(call)
+			return pkg == "io/fs" && nm == method && len(call.Call.Args) == 1 && isMode(c11LV{call.Call.Args[0], l.E})
+		})
 	}
-	statField := func(x ssa.Value, field string) bool {
-		base, f, ok := fieldRead(x)
-		return ok && f.Name() == field && f.Pkg() != nil && f.Pkg().Path() == "syscall" && statOf(base)
-	}
-	allInstrs(fn, func(_ *ssa.BasicBlock, _ int, in ssa.Instruction) {
-		call, ok := in.(*ssa.Call)
-		if !ok {
-			return
-		}
-		pkg, nm := c18CalleePkg(call)
-		if pkg == "io/fs" && nm == "IsDir" && len(call.Call.Args) == 1 && isMode(call.Call.Args[0]) {
-			t, _ := boolEdges(fn, call)
-			isDirT = append(isDirT, t...)
-		}
-	})
-	groups = append(groups, group{"is-dir", "Mode().IsDir()", isDirT})
 	symlinkBit := int64(1) << 27 // fs.ModeSymlink
 	if k, ok := c.PkgTypes("io/fs").Scope().Lookup("ModeSymlink").(*types.Const); ok {
 		if v, isC := c18ConstIntVal(k); isC {
 			symlinkBit = v
 		}
 	}
-	symEq, _ = c18CmpEdges(fn, func(x, y ssa.Value) bool {
-		bo, ok := x.(*ssa.BinOp)
-		z, isZ := constInt(y)
-		if !ok || bo.Op != token.AND || !isZ || z != 0 {
-			return false
-		}
-		m, isC := constInt(bo.Y)
-		other := bo.X
-		if !isC {
-			m, isC = constInt(bo.X)
-			other = bo.Y
-		}
-		return isC && m == symlinkBit && isMode(other)
-	})
-	groups = append(groups, group{"not-symlink", "Mode()&ModeSymlink == 0", symEq})
-	permEq, _ = c18CmpEdges(fn, func(x, y ssa.Value) bool {
-		call, ok := x.(*ssa.Call)
-		m, isC := constInt(y)
-		if !ok || !isC || m != 0o700 {
-			return false
-		}
-		pkg, nm := c18CalleePkg(call)
-		return pkg == "io/fs" && nm == "Perm" && len(call.Call.Args) == 1 && isMode(call.Call.Args[0])
-	})
-	groups = append(groups, group{"perm-0700", "Mode().Perm() == 0700", permEq})
-	nl1, _ = c18CmpEdges(fn, func(x, y ssa.Value) bool { n, isC := constInt(y); return isC && n == 1 && statField(x, "Nlink") })
-	nl2, _ = c18CmpEdges(fn, func(x, y ssa.Value) bool { n, isC := constInt(y); return isC && n == 2 && statField(x, "Nlink") })
-	// any other equality on Nlink widens the accepted set
-	wide, _ := c18CmpEdges(fn, func(x, y ssa.Value) bool { _, isC := constInt(y); return isC && statField(x, "Nlink") })
-	nlOnly := len(wide) == len(nl1)+len(nl2)
-	groups = append(groups, group{"nlink", "Nlink == 1 || Nlink == 2", append(append([]Edge{}, nl1...), nl2...)})
-	users := map[ssa.Value]bool{}
-	for _, cs := range callsIn(fn, lookup) {
-		uidDep := mustDepend(fn, cs.Common().Args[0], func(v ssa.Value) bool { return statField(v, "Uid") })
-		if !uidDep {
-			continue
-		}
-		s, _, _ := callErrEdges(fn, cs.Value())
-		lookOK = append(lookOK, s...)
-		users[extractN(cs.Value(), 0)] = true
+	// groups of facts that must all hold where the identity is recorded
+	type group struct {
+		label, what string
+		fact        c11Fact
 	}
-	groups = append(groups, group{"uid-lookup", "user.LookupId(stat.Uid) == nil", lookOK})
-	var egroups [][]Edge
-	for _, g := range groups {
-		egroups = append(egroups, g.edges)
+	nlink := func(k int64) c11Fact {
+		return c11CmpFact(true, func(x, y c11LV) bool { return c.c11LVConstInt(y, k) && statField(x, "Nlink") })
+	}
+	isLookup := func(call ssa.CallInstruction, e *c11Env) bool {
+		return isCall(lookup)(call) && c.c11DepLV(c11LV{call.Common().Args[0], e}, func(v c11LV) bool {
+			return statField(v, "Uid")
+		})
+	}
+	groups := []group{
+		{"lstat-ok", "os.Lstat(path) == nil", c11Fact{errOK: isLstat}},
+		{"is-dir", "Mode().IsDir()", c11Fact{cond: func(lv c11LV, want bool) bool { return want && modeCall(lv, "IsDir") }}},
+		{"not-symlink", "Mode()&ModeSymlink == 0", c11CmpFact(true, func(x, y c11LV) bool {
+			if !c.c11LVConstInt(y, 0) {
+				return false
+			}
+			return c.c11All(x, func(l c11LV) bool {
+				bo, ok := l.V.(*ssa.BinOp)
+				if !ok || bo.Op != token.AND {
+					return false
+				}
+				bx, by := c11LV{bo.X, l.E}, c11LV{bo.Y, l.E}
+				return (c.c11LVConstInt(by, symlinkBit) && isMode(bx)) || (c.c11LVConstInt(bx, symlinkBit) && isMode(by))
+			})
+		})},
+		{"perm-0700", "Mode().Perm() == 0700", c11CmpFact(true, func(x, y c11LV) bool {
+			return c.c11LVConstInt(y, 0o700) && modeCall(x, "Perm")
+		})},
+		{"nlink", "Nlink == 1 || Nlink == 2", c11AnyFact(nlink(1), nlink(2))},
+		{"uid-lookup", "user.LookupId(stat.Uid) == nil", c11Fact{errOK: isLookup}},
 	}
 	for i, st := range stores {
 		construct := fmt.Sprintf("%s#User-store%d", name, i+1)
-		if st.Parent() != fn {
-			c.Undecided(rule, construct, "negotiation.User is assigned inside a closure", st.Pos())
+		if st.env == nil {
+			c.Undecided(rule, construct, "negotiation.User is assigned inside a closure", st.st.Pos())
 			continue
 		}
-		okAll := true
 		for _, g := range groups {
-			if len(g.edges) == 0 {
-				c.Violate(rule, construct+":"+g.label, "no test "+g.what+" on the object at the path the server generated", st.Pos())
-				okAll = false
+			q := c.c11NewQuery(g.fact)
+			n := 0
+			for e := st.env; e != nil; e = e.parent {
+				n += q.cutsOf(e).n
+			}
+			if n == 0 {
+				c.Violate(rule, construct+":"+g.label, "no test "+g.what+" on the object at the path the server generated", st.st.Pos())
 				continue
 			}
-			if p := findPath(entryPoint(fn), Target{Instr: st}, newCuts().AddEdges(g.edges...)); p != nil {
-				c.Violate(rule, construct+":"+g.label, "negotiation.User is assigned on a path that does not pass "+g.what, st.Pos(), c.describePath(p)...)
-				okAll = false
+			if ok, p := q.guards(nil, st.env, st.st); !ok {
+				c.Violate(rule, construct+":"+g.label, "negotiation.User is assigned on a path that does not pass "+g.what, st.st.Pos(), c.describePath(p)...)
 			} else {
-				c.Ok(rule, construct+":"+g.label, "the identity is recorded only after "+g.what, st.Pos())
+				c.Ok(rule, construct+":"+g.label, "the identity is recorded only after "+g.what, st.st.Pos())
 			}
 		}
-		_ = okAll
 		// the recorded name is the looked-up user's
-		base, f, ok := fieldRead(st.Val)
-		c.Check(ok && f == uname && users[base], rule, construct+":value", "the recorded name is Username of the user looked up from the directory's uid", "the recorded name is not the Username of user.LookupId(stat.Uid)", st.Pos())
+		okVal := c.c11All(st.val, func(l c11LV) bool {
+			base, f, ok := fieldRead(l.V)
+			if !ok || f != uname {
+				return false
+			}
+			real := 0
+			return c.c11All(c11LV{base, l.E}, func(m c11LV) bool {
+				if isNilConst(m.V) {
+					return true // reading a field through a nil pointer yields no name at all
+				}
+				call, idx := originCall(m.V)
+				if call != nil && idx == 0 && isLookup(call, m.E) {
+					real++
+					return true
+				}
+				return false
+			}) && real > 0
+		})
+		c.Check(okVal, rule, construct+":value", "the recorded name is Username of the user looked up from the directory's uid", "the recorded name is not the Username of user.LookupId(stat.Uid)", st.st.Pos())
+	}
+	// any other equality on Nlink widens the accepted set
+	nlOnly := true
+	for _, e := range c11Bodies(root) {
+		allInstrs(e.fn, func(_ *ssa.BasicBlock, _ int, in ssa.Instruction) {
+			bo, ok := in.(*ssa.BinOp)
+			if !ok || (bo.Op != token.EQL && bo.Op != token.NEQ) {
+				return
+			}
+			for _, xy := range [][2]ssa.Value{{bo.X, bo.Y}, {bo.Y, bo.X}} {
+				if k, isC := constInt(xy[1]); isC && k != 1 && k != 2 && statField(c11LV{xy[0], e}, "Nlink") {
+					nlOnly = false
+				}
+			}
+		})
 	}
 	c.Check(nlOnly, rule, name+"#nlink-set", "link count is compared with 1 and 2 only", "the link count is compared with a value other than 1 or 2", fn.Pos())
 	// success requires result == 0, and 0 is assigned only in the verified region
-	succ := c.successTargets(fn)
-	var zeroE []Edge
-	var resVar ssa.Value
-	for _, b := range fn.Blocks {
-		ifi := blockIf(b)
-		if ifi == nil {
-			continue
-		}
-		a := condAtom(ifi.Cond)
-		if a.Op != token.EQL && a.Op != token.NEQ {
-			continue
-		}
-		z, isZ := constInt(a.Y)
-		if _, isPhi := a.X.(*ssa.Phi); !isPhi || !isZ || z != 0 {
-			continue
-		}
-		leaves := c18PhiLeaves(a.X)
-		allConst := true
-		for _, l := range leaves {
-			if _, isC := constInt(l.V); !isC {
-				allConst = false
+	succ := c18RetTargets(c.successTargets(fn))
+	c.MinCount(rule, "success returns of the server exchange", len(succ), 1)
+	var resVar *c11LV
+	for _, e := range c11Bodies(root) {
+		allInstrs(e.fn, func(_ *ssa.BasicBlock, _ int, in ssa.Instruction) {
+			bo, ok := in.(*ssa.BinOp)
+			if !ok || (bo.Op != token.EQL && bo.Op != token.NEQ) || resVar != nil {
+				return
 			}
-		}
-		if !allConst {
-			continue
-		}
-		e, _ := c18CmpEdges(fn, func(x, y ssa.Value) bool { return x == a.X && y == a.Y })
-		// keep only candidates whose zero edge gates every success return
-		gates := len(succ) > 0
-		for _, t := range succ {
-			if findPath(entryPoint(fn), t.Target(), newCuts().AddEdges(e...)) != nil {
-				gates = false
+			for _, xy := range [][2]ssa.Value{{bo.X, bo.Y}, {bo.Y, bo.X}} {
+				x, y := c11LV{xy[0], e}, c11LV{xy[1], e}
+				if _, isC := constInt(x.V); isC || !c.c11LVConstInt(y, 0) {
+					continue
+				}
+				sites := c.c18ValueSites(x)
+				allConst := len(sites) > 1
+				for _, s := range sites {
+					if _, isC := constInt(s.val.V); !isC {
+						allConst = false
+					}
+				}
+				if !allConst {
+					continue
+				}
+				// keep only a candidate whose zero edge gates every success return
+				gate := c11CmpFact(true, func(p, q c11LV) bool { return p == x && q.V == y.V })
+				ci := c.c11NewQuery(gate).cutsOf(root)
+				if ci.n > 0 && c.c11MustPassQuiet(fn, succ, ci.cuts) {
+					resVar = &x
+				}
 			}
-		}
-		if gates {
-			zeroE = append(zeroE, e...)
-			resVar = a.X
-		}
+		})
 	}
 	if resVar == nil {
 		c.Violate(rule, name+"#success-gate", "no test 'result == 0' over a constant-valued result variable gates the success return", fn.Pos())
-	} else {
-		c.Ok(rule, name+"#success-gate", "the success return is gated by result == 0", fn.Pos())
-		okZero, zeros := true, 0
-		for _, l := range c18PhiLeaves(resVar) {
-			if n, _ := constInt(l.V); n != 0 {
-				continue
-			}
-			zeros++
-			if l.From == nil || c18BlockNeeds(fn, l.From, egroups) >= 0 {
+		return
+	}
+	c.Ok(rule, name+"#success-gate", "the success return is gated by result == 0", fn.Pos())
+	okZero, zeros := true, 0
+	for _, s := range c.c18ValueSites(*resVar) {
+		if n, _ := constInt(s.val.V); n != 0 {
+			continue
+		}
+		zeros++
+		if s.at == nil {
+			okZero = false
+			continue
+		}
+		for _, g := range groups {
+			if ok, _ := c.c11NewQuery(g.fact).guards(nil, s.env, s.at); !ok {
 				okZero = false
 			}
 		}
-		c.Check(okZero && zeros > 0, rule, name+"#result-zero", "the result is 0 only where every check has passed", "the result variable can be 0 on a path that skipped one of the directory checks", fn.Pos())
-		// the integer sent to the client is that variable
-		putInt := c.needFn(rule, "message", "(*Message).PutInt")
-		sentRes := false
-		if putInt != nil {
-			for _, cs := range callsIn(fn, putInt.Object()) {
-				if cs.Common().Args[len(cs.Common().Args)-1] == resVar {
-					sentRes = true
-				}
+	}
+	c.Check(okZero && zeros > 0, rule, name+"#result-zero", "the result is 0 only where every check has passed", "the result variable can be 0 on a path that skipped one of the directory checks", fn.Pos())
+	// the integer sent to the client is that variable
+	putInt := c.needFn(rule, "message", "(*Message).PutInt")
+	sentRes := false
+	if putInt != nil {
+		for _, cs := range c11CallsTo(root, isCall(putInt.Object())) {
+			arg := c11LV{cs.call.Common().Args[len(cs.call.Common().Args)-1], cs.env}
+			if c11SameLeaves(arg, []c11LV{*resVar}) && c11SameLeaves(*resVar, []c11LV{arg}) {
+				sentRes = true
 			}
 		}
-		c.Check(sentRes, rule, name+"#result-sent", "the verdict sent to the client is the gated result variable", "the verdict sent to the client is not the variable that gates the server's own success", fn.Pos())
 	}
-	c.MinCount(rule, "success returns of the server exchange", len(succ), 1)
+	c.Check(sentRes, rule, name+"#result-sent", "the verdict sent to the client is the gated result variable", "the verdict sent to the client is not the variable that gates the server's own success", fn.Pos())
 }
 
 func c18ConstIntVal(k *types.Const) (int64, bool) {
